@@ -4,6 +4,7 @@ from analysis.mir import Body, CallGraph, callee_name, callee_id, op_place, op_l
 from analysis import ordering as od
 from analysis import ctrl
 from analysis.inline import inlined
+from rules import orderproto as op_
 from analysis.nondet import root_local, receiver_fields
 
 
@@ -22,7 +23,7 @@ def find_orderers(F, cg):
             if not adt:
                 continue
             ftys = [fl["ty"]["s"] for fl in adt["variants"][0]["fields"]]
-            if not any(re.match(r"std::vec::Vec<", t) for t in ftys) or not any("HashSet<" in t for t in ftys):
+            if not any(re.match(r"std::vec::Vec<", t) for t in ftys) or not any(re.search(r"(Hash|BTree)(Set|Map)<", t) for t in ftys):
                 continue
             b = Body(inlined(F, f, same_impl=True))
             pushes = od.field_calls(b, r"Vec::<.*>::push$")
@@ -73,41 +74,37 @@ def run(ctx, only=None, floors=True, clients=None):
             continue
         push_bbs = [p[0] for p in pushes]
         desc_bbs = [d[0] for d in descents]
-        # ---- seen set: the set that has an insert NOT dominating any descent and is tested by contains
-        seen_field = None
-        pend_field = None
-        for fld in {c[2] for c in contains}:
-            ins = [i for i in inserts if i[2] == fld]
-            if not ins:
+        # ---- the visit protocol, read independently of its representation (two sets, one state map, insert-as-test)
+        tests, marks, releases = op_.membership_ops(F, b)
+        seen_key = None
+        pend_key = None
+        for k in sorted({t_["key"] for t_ in tests}, key=str):
+            ms = [m for m in marks if m["key"] == k]
+            if not ms:
                 continue
-            ins_dom_desc = any(all(b.dominates(i[0], d) for d in desc_bbs) for i in ins)
-            if ins_dom_desc:
-                pend_field = fld
+            if any(all(b.dominates(m["bb"], d) for d in desc_bbs) for m in ms):
+                pend_key = k
             else:
-                seen_field = fld
+                seen_key = k
         # (ii) seen test first
-        if seen_field is None:
+        if seen_key is None:
             ctx.violation("R17.1", key + "/seen", "%s: no seen-set (tested with contains, inserted after the descent) found" % key, site)
         else:
-            c = [c for c in contains if c[2] == seen_field][0]
-            br = od.bool_branches(b, c[0])
-            ok = br is not None
+            c = [t_ for t_ in tests if t_["key"] == seen_key][0]
+            ok = c["present"] is not None
             if ok:
-                tr, fl = br
-                ok = all(b.dominates(fl, x) for x in push_bbs + desc_bbs)
-                # true branch reaches return without push/descent
-                r = od.reach(b, tr)
-                ok = ok and not (r & set(push_bbs + desc_bbs))
+                ok = all(b.dominates(c["call"], x) for x in push_bbs + desc_bbs)
+                # the "already ordered" branch reaches the return without push / descent
+                ok = ok and not (od.reach(b, c["present"]) & set(push_bbs + desc_bbs))
             if ok:
-                ctx.ok("R17.1", key + "/seen-first", "contains(%s) guards descent and push" % ".".join(seen_field))
+                ctx.ok("R17.1", key + "/seen-first", "test of %s guards descent and push" % op_.fmt_key(seen_key))
             else:
-                ctx.violation("R17.1", key + "/seen-first", "%s: the seen-set test does not dominate every descent and push (duplicates possible)" % key, b.site(c[0]))
-            # insert into seen accompanies the push: same region (dominated by not-seen branch, after descents)
-            ins = [i for i in inserts if i[2] == seen_field]
-            if not all(not (od.reach(b, i[0]) & set(desc_bbs)) for i in ins):
-                ctx.violation("R17.1", key + "/seen-after", "%s: item is marked seen before its dependencies are descended into (a cycle yields an ordering instead of an error)" % key, b.site(ins[0][0]))
+                ctx.violation("R17.1", key + "/seen-first", "%s: the seen-set test does not dominate every descent and push (duplicates possible)" % key, b.site(c["call"]))
+            ins = [m for m in marks if m["key"] == seen_key]
+            if not all(not (od.reach(b, i["bb"]) & set(desc_bbs)) for i in ins):
+                ctx.violation("R17.1", key + "/seen-after", "%s: item is marked seen before its dependencies are descended into (a cycle yields an ordering instead of an error)" % key, b.site(ins[0]["bb"]))
             else:
-                ctx.ok("R17.1", key + "/seen-after", "seen insert after all descents")
+                ctx.ok("R17.1", key + "/seen-after", "seen mark after all descents")
         # (iii) dependencies first: no descent reachable after the push; push not in a loop
         bad = False
         for pb in push_bbs:
@@ -123,36 +120,34 @@ def run(ctx, only=None, floors=True, clients=None):
         # (iv) exactly one push per non-seen path
         if len(push_bbs) != 1:
             ctx.violation("R17.1", key + "/one-push", "%s: %d output pushes" % (key, len(push_bbs)), site)
-        elif seen_field is not None:
-            c = [c for c in contains if c[2] == seen_field][0]
-            sw = od.bool_switch(b, c[0])
-            if sw:
-                swb, tr, fl = sw
+        elif seen_key is not None:
+            c = [t_ for t_ in tests if t_["key"] == seen_key][0]
+            if c["present"] is not None and c["sw"] is not None:
                 # every normal return is reached either over the "already seen" edge or after the push: an early
                 # `return Ok` anywhere else (before the seen test, or on the not-seen side) leaves an item out
-                bypass = od.normal_exit_reachable(b, 0, blocks_removed=push_bbs, edges_removed=[(swb, tr)])
+                bypass = od.normal_exit_reachable(b, 0, blocks_removed=push_bbs, edges_removed=[(c["sw"], c["present"])])
                 if bypass:
                     ctx.violation("R17.1", key + "/one-push", "%s: an item that is not in the seen-set can return normally without being pushed (incomplete ordering)" % key, site)
                 else:
                     ctx.ok("R17.1", key + "/one-push", "every normal return is either the already-seen edge or follows the single push")
         # (i) pending-set cycle guard
-        if pend_field is None:
+        if pend_key is None:
             ctx.violation("R17.1", key + "/cycle-guard", "%s has no pending-set: a cyclic (or self-referential) dependency graph recurses without bound instead of returning an error" % key, site)
         else:
-            c = [c for c in contains if c[2] == pend_field]
-            ins = [i for i in inserts if i[2] == pend_field]
-            rem = [r for r in removes if r[2] == pend_field]
-            ok = bool(c) and bool(ins) and bool(rem)
+            c = [t_ for t_ in tests if t_["key"] == pend_key]
+            ins = [m for m in marks if m["key"] == pend_key]
+            rel = [r_ for r_ in releases if r_["field"] == pend_key[0] and (r_["to"] is None or r_["to"] != pend_key[1])]
+            ok = bool(c) and bool(ins) and bool(rel)
             why = []
             if not c:
                 why.append("pending set never tested")
             if c:
-                br = od.bool_branches(b, c[0][0])
-                if not br:
+                c0 = c[0]
+                if c0["present"] is None:
                     ok = False
                     why.append("pending test result unused")
                 else:
-                    tr, fl = br
+                    tr = c0["present"]
                     if od.reach(b, tr) & set(desc_bbs + push_bbs):
                         ok = False
                         why.append("pending item still descends/pushes")
@@ -160,19 +155,20 @@ def run(ctx, only=None, floors=True, clients=None):
                     if od.reach(b, tr, removed=errb) & okb:
                         ok = False
                         why.append("pending item returns Ok instead of an error")
-                    if not all(b.dominates(c[0][0], d) for d in desc_bbs):
+                    if not all(b.dominates(c0["call"], d) for d in desc_bbs):
                         ok = False
                         why.append("pending test does not dominate the descent")
-            if rem and not all(b.dominates(r0[0], pb) for r0 in rem[:1] for pb in push_bbs):
+            if rel and not any(all(b.dominates(r0["bb"], pb) or r0["bb"] == pb for pb in push_bbs) for r0 in rel):
                 ok = False
                 why.append("pending removal does not precede the push")
-            if not rem:
+            if not rel:
                 why.append("pending set never released (a shared dependency would be reported as a cycle)")
             if ok:
-                ctx.ok("R17.1", key + "/cycle-guard", "pending(%s): test → error, insert → descent → remove → push" % ".".join(pend_field))
+                ctx.ok("R17.1", key + "/cycle-guard", "pending(%s): test -> error, mark -> descent -> release -> push" % op_.fmt_key(pend_key))
             else:
                 ctx.violation("R17.1", key + "/cycle-guard", "%s: cycle guard malformed: %s" % (key, "; ".join(why)), site)
         # R17.5 descent purity
+        proto_fields = {t_["key"][0] for t_ in tests} | {m["key"][0] for m in marks}
         for bi, t in descents:
             sl = ctrl.slice_paths(b, t["args"])
             bad = []
@@ -180,7 +176,12 @@ def run(ctx, only=None, floors=True, clients=None):
                 c = ctrl.classify_switch(b, sw)
                 if c[0] in ("try", "next"):
                     continue
-                if c[0] == "call" and re.search(r"HashSet::<.*>::(contains|insert|remove)$", c[1]) and c[2] and c[2][0] == ("arg", 1):
+                if c[0] == "call" and op_.PROTOCOL_CALL.search(c[1]) and c[2] and c[2][0] == ("arg", 1):
+                    continue
+                if c[0] == "callres" and op_.PROTOCOL_CALL.search(c[1] or ""):
+                    continue
+                if c[0] in ("callres", "discr", "value") and c[-1][0] == ("arg", 1) and any(tuple(x for x in ctrl._strip(c[-1][1]) if not str(x).startswith("["))[:len(pf)] == tuple(pf) for pf in proto_fields):
+                    # the state stored for the item in the protocol's own container (`match self.visits.get(item)`)
                     continue
                 if c[0] in ("discr", "callres", "value") and any(ctrl.prefix_compatible(c[-1], q) for q in sl):
                     continue
